@@ -55,6 +55,14 @@ def gen_history(rng, i, quick):
             removed_at[t] = (len(g.ops), g.epoch)
         if rng.chance(1, 3) and g.in_group:
             g.ops.append({"op": "save", "who": rng.choice(g.in_group)})
+    # a proposal of the CURRENT epoch by a non-member (NewMemberProposal: no membership tag, the signature
+    # does not cover the group context - only the epoch check keeps a removed party from caching it)
+    if g.outsiders() and g.in_group and removed_at:
+        gi = g.fresh("gi")
+        g.ops.append({"op": "group_info", "who": rng.choice(g.in_group), "id": gi, "ext_commit": False, "tree_ext": True})
+        xa = g.fresh("p")
+        g.ops.append({"op": "ext_add", "who": g.outsiders()[0], "gi": gi, "id": xa})
+        created.append((len(g.ops) - 1, xa, g.epoch, "proposal", False))
     final_observe = len(g.ops) - 1
     # feed every later message to every removed party
     stale = []   # (op index, party, message tuple)
